@@ -14,13 +14,24 @@ def load_replay(path):
     """a replay .ops file -> list of Case (one per CASE line)"""
     cases = []
     cur = None
+    pending_meta = None
     with open(path) as f:
         for line in f:
             line = line.rstrip("\n")
+            if line.startswith("# meta: "):
+                # what the generator knows about the case (cut points, which id is unknown, ...):
+                # the oracles of some properties need it to judge the same input again
+                import ast
+                try:
+                    pending_meta = ast.literal_eval(line[len("# meta: "):])
+                except Exception:
+                    pending_meta = None
+                continue
             if not line.strip() or line.startswith("#"):
                 continue
             if line.startswith("CASE "):
-                cur = Case(" ".join(line.split()[2:]) or "replay", [])
+                cur = Case(" ".join(line.split()[2:]) or "replay", [], pending_meta)
+                pending_meta = None
                 cases.append(cur)
             else:
                 if cur is None:
@@ -325,6 +336,11 @@ class C02(Prop):
 def partition_case(rng, tables):
     seq = gen.packet_sequence(rng, tables, npk=rng.choice([2, 2, 3, 4, 5, 6]))
     pk = [b for b, _v, _d in seq]
+    if rng.random() < 0.15:
+        # many packets for few bytes: runs of header-only packets (16-byte IPFIX messages, 20-byte V9
+        # packets, 24-byte V5/V7 packets), optionally with an ordinary packet after them
+        run = [gen.minimal_packet(rng, rng.choice([10, 10, 9, 5, 7])) for _ in range(rng.choice([3, 4, 5, 7, 9]))]
+        pk = run + pk[: rng.choice([0, 1])]
     ops = ["P 0", "B 0 " + hexs(b"".join(pk))]
     parts = gen.all_partitions(pk)
     if len(parts) > 8:
@@ -667,7 +683,8 @@ class C04(Prop):
                   "those records, in order, with that padding; template and options-template records are reported as sent. C04_packet: for every packet "
                   "built by the encoder of Spec/V9Stream.v from a header and ANY list of template / options-template / data / options-data flowsets that is "
                   "conformant for the collector state it meets, every state and any bytes after it, parse_v9 returns exactly the expected decode, exactly "
-                  "those bytes as the rest, and exactly the expected cache (last definition wins). An options data flowset with more than one record is "
+                  "those bytes as the rest, and exactly the expected cache (last definition wins). C04_buffer: ANY sequence of conformant V9 packets and IPFIX "
+                  "messages chained in one buffer is reported as exactly the expected elements, the state threaded from packet to packet. An options data flowset with more than one record is "
                   "decoded as its first record only: known finding K_C04_options_multi_record, with the refuting witness C04_options_multi_refuted.")
     level_note = "the encoder/expected-decode pair in Spec/V9Stream.v is the specification; the independent reference decoder tools/refdec.py cross-checks it on generated streams"
     partial = ""
@@ -703,7 +720,8 @@ class C05(C04):
                   "of records (each field sent with either prefix form) plus padding shorter than the smallest record decodes to exactly those records in "
                   "order with that padding. C05_message: for every message built by the encoder of Spec/IxStream.v from a header and ANY list of template, "
                   "options-template and data sets conformant for the collector state it meets, every state and any bytes after it, parse_ipfix returns "
-                  "exactly the expected decode, those bytes as the rest, and the expected caches.")
+                  "exactly the expected decode, those bytes as the rest, and the expected caches. C05_buffer: the same over a whole buffer of chained V9 "
+                  "packets and IPFIX messages (C05_buffer_example: both protocols in one buffer).")
     level_note = "template sets with more than one record (known finding K_C05_multi_template) and 8/16-byte signed values (K_C05_signed_wide) are outside the conformance predicate; tools/refdec.py cross-checks the specification on generated streams"
     partial = ""
     rule = ("RFC 7011-conformant message streams (template / options-template / data sets in any order, enterprise fields, variable-length fields in "
